@@ -22,7 +22,7 @@ from ..recipes import ref as R
 
 LEVEL = "exploration"
 BUDGET_S = {"quick": 75, "thorough": 1500}
-N_RANDOM = {"quick": 120, "thorough": 4000}
+N_RANDOM = {"quick": 500, "thorough": 15000}
 
 DV = [
     {"k": "var", "name": "a"},
